@@ -109,6 +109,8 @@ def forms(p: str) -> List[str]:
 
 def forms_for(kind: str, p: str) -> List[str]:
     fs = forms(p)
+    if kind.startswith("reexport."):
+        fs += [RAWTAIL, placeholder(RAWTAIL)]        # the raw block planted next to the payload
     if RAWTAIL in p or placeholder(RAWTAIL) in p:
         head = p[:len(MARK) + 2]
         fs += forms(head) + [RAWTAIL, placeholder(RAWTAIL)]
@@ -127,7 +129,7 @@ def fname(p: str) -> str:
 PYVAL_KINDS = ["strconst", "default", "annotation", "decoarg", "baseexpr", "typealias"]
 KINDS = (["modname"] + [f"doc.{f}" for f in DOCFORMATS] + [f"field.{f}" for f in DOCFORMATS if f != "plaintext"]
          + ["xref.epytext", "xref.restructuredtext", "doctest.epytext", "doctest.restructuredtext"]
-         + PYVAL_KINDS + ["deprecated", "imagealt", "projname", "projurl"])
+         + PYVAL_KINDS + ["deprecated", "imagealt", "reexport.plaintext", "mathtext", "projname", "projurl"])
 
 
 def payload_for(kind: str, p: str) -> str:
@@ -195,6 +197,23 @@ def gen(kind: str, p: str) -> Dict[str, Any]:
             "typealias": f'Alias: typing.TypeAlias = typing.Dict[str, Literal[{R}]]\n"""Doc of alias."""\nAlias2 = typing.Union[Literal[{R}], int]\n"""Doc."""\n',
         }[kind]
         files["zpkg/amod.py"] = pre + body
+    elif kind == "reexport.plaintext":
+        # a class, its method and a function written in a `__docformat__ = "plaintext"` module, re-exported by a package
+        # documented as restructuredtext; next to the payload a block that IS a raw directive for a reST parser
+        args = ["--docformat", "restructuredtext"]
+        block = "<i>" + RAWTAIL
+        if not any(c in p for c in "<>&\"'"):
+            block = placeholder(block)              # the twin
+        d = f"Word {p} first. More text.\n\nSecond {p} paragraph.\n\n.. raw:: html\n\n   {block}\n"
+        files["zpkg/__init__.py"] = '"""Package doc."""\nfrom ._impl import Moved, movedfun\n__all__ = ["Moved", "movedfun"]\n'
+        files["zpkg/_impl.py"] = _escape_docstring_source(
+            '"""Impl."""\n__docformat__ = "plaintext"\n' + "class Moved:\n" + _ds(d, 4) + "    def meth(self):\n" + _ds(d, 8)
+            + "def movedfun():\n" + _ds(d, 4))
+    elif kind == "mathtext":
+        # text-mode content of inline math (\\text{...}, \\mbox{...}) in a reST docstring
+        args += ["--docformat", "restructuredtext"]
+        d = f"Module.\n\nFormula :math:`a \\\\text{{{p}}} b` and :math:`\\\\mbox{{{p}}}` end."
+        files["zpkg/amod.py"] = _escape_docstring_source(_ds(d, 0) + "class Dcls:\n" + _ds(d, 4))
     elif kind == "imagealt":
         # :alt: text of images in a reST docstring: attribute of <img>, content of <object> for .svg & co
         args += ["--docformat", "restructuredtext"]
@@ -638,13 +657,21 @@ HISTORY_VERSIONS = {
                              + "    def run(self, times=1):\n" + _ds("Run.\n\n" + _LONG, 8)
                              + "    def stop(self):\n" + _ds("Stop.\n\n" + _LONG, 8)
                              + "class Extra:\n" + _ds("Only in the long version.\n\n" + _LONG, 4)
-                             + "def helper_one():\n" + _ds("h1", 4) + "def helper_two():\n" + _ds("h2", 4))},
+                             + "def helper_one():\n" + _ds("h1", 4) + "def helper_two():\n" + _ds("h2", 4)
+                             + "class Secret:\n" + _ds("Hidden by a privacy rule.\n\n" + _LONG, 4)
+                             + "    class Inner:\n" + _ds("Below a hidden class.\n\n" + _LONG, 8)),
+             "hpkg/hid.py": _ds("A module hidden by a privacy rule.\n\n" + _LONG, 0) + "class InHidden:\n" + _ds("x", 4)},
     "short": {"hpkg/__init__.py": _ds("The package.", 0),
               "hpkg/mod.py": (_ds("A module.", 0) + "class Worker:\n" + _ds("A class.", 4)
-                              + "    def run(self, times=1):\n" + _ds("Run.", 8))},
+                              + "    def run(self, times=1):\n" + _ds("Run.", 8)
+                              + "class Secret:\n" + _ds("Hidden.", 4) + "    class Inner:\n" + _ds("Below.", 8)),
+              "hpkg/hid.py": _ds("Hidden module.", 0) + "class InHidden:\n" + _ds("x", 4)},
 }
 # PageHistory.tla's page numbers
-HISTORY_PAGES = {1: "index.html", 2: "hpkg.mod.html", 3: "hpkg.mod.Worker.html", 4: "hpkg.mod.Extra.html", 5: "nameIndex.html"}
+HISTORY_PAGES = {1: "index.html", 2: "hpkg.mod.html", 3: "hpkg.mod.Worker.html", 4: "hpkg.mod.Extra.html", 5: "nameIndex.html",
+                 6: "hpkg.hid.html", 7: "hpkg.mod.Secret.html", 8: "hpkg.mod.Secret.Inner.html"}
+HISTORY_HIDDEN = (6, 7, 8)
+HISTORY_ARGS = ["--privacy=HIDDEN:hpkg.hid", "--privacy=HIDDEN:hpkg.mod.Secret"]
 
 
 def run_history(job: Dict[str, Any]) -> Dict[str, Any]:
@@ -675,7 +702,7 @@ def run_history(job: Dict[str, Any]) -> Dict[str, Any]:
                 # id="idN" of the member tables starts at 0 in each (its leak between runs of one process is C18's)
                 ChildTable.last_id = 0
                 try:
-                    rcs.append(driver.main(["--html-output", str(out), "--quiet", "--project-name", "Hist", "hpkg"]))
+                    rcs.append(driver.main(["--html-output", str(out), "--quiet", "--project-name", "Hist"] + HISTORY_ARGS + ["hpkg"]))
                 except SystemExit as e:
                     rcs.append(f"SystemExit({e.code})")
                 except BaseException as e:
@@ -720,10 +747,10 @@ def check_histories(ctx: Ctx, pool: Any) -> None:
     results = pool.map(run_history, jobs, chunksize=1)
     fresh = {tuple(x["hist"])[0]: x for x in results if len(x["hist"]) == 1}
     for v, x in fresh.items():
-        if any(rc != 0 for rc in x["rcs"]) or not all(HISTORY_PAGES[p] in x["pages"] for p in HISTORY_PAGES if p != 4 or v == "long"):
+        if any(rc != 0 for rc in x["rcs"]) or not all(HISTORY_PAGES[p] in x["pages"] for p in HISTORY_PAGES if p not in HISTORY_HIDDEN and (p != 4 or v == "long")):
             raise MachineryError(f"fresh build of history version {v} failed: {x['rcs']} {x['log'][-300:]}")
     for p, name in HISTORY_PAGES.items():          # the relation between the sizes the spec assumes
-        if p != 4 and not fresh["long"]["pages"][name]["size"] > fresh["short"]["pages"][name]["size"]:
+        if p != 4 and p not in HISTORY_HIDDEN and not fresh["long"]["pages"][name]["size"] > fresh["short"]["pages"][name]["size"]:
             raise MachineryError(f"history versions: {name} is not longer in the long version")
     drift = 0
     for rec, x in zip(recs, results):
@@ -773,16 +800,46 @@ def make_pool(n: int):
 # ------------------------------------------------------------------------------------- judging
 CFG_ENUM = """SPECIFICATION Spec
 CONSTANTS Source = "enum"
+          MovedDocformat = "{moved}"
 CONSTRAINT EmitEnum
-INVARIANT NeverParsedRaw
-INVARIANT SinkLevelOne
+INVARIANT {raw}
+INVARIANT {sink}
 INVARIANT WellTyped
 INVARIANT SameAsWalk
 """
 CFG_FILE = """SPECIFICATION Spec
 CONSTANTS Source = "file"
+          MovedDocformat = "{moved}"
 CONSTRAINT EmitFile
 """
+KF_MOVED = "moved-function-docstring-parsed-with-the-docformat-of-the-new-module"
+KF_MATH = "math-text-mode-copied-raw"
+# payloads compared with the model for `mathtext` (copied raw, markup turns into elements or XML errors)
+MODELLED_MATHTEXT = ("entities", "xmlbreak")
+
+
+def kf_moved_docformat(w: Dict[str, Any]) -> bool:
+    """Known finding: Documentable.reparent sets parentMod of the moved object itself, so the docstring of a re-exported
+    FUNCTION is parsed with the docformat of the module it is re-exported FROM ... TO (the new one) instead of the one it
+    is written in.  Matches ONLY violations of the source kind `reexport.plaintext` for which html2stan was observed on
+    level-0 text (the raw block of the plaintext docstring was read as a reST raw directive)."""
+    return (w.get("kind") == "reexport.plaintext" and w.get("invariant") in ("SkeletonEqual", "CanaryAppears")
+            and any(e[0] == "ParseXml" and e[1] == 0 for e in w.get("events", [])))
+
+
+def kf_math_text_raw(w: Dict[str, Any]) -> bool:
+    """Known finding: docutils math2html copies the text-mode content of a formula (\\text{...}, \\mbox{...}) unescaped
+    into the HTML, node2stan does not override visit_math.  Matches ONLY violations of the source kind `mathtext` with
+    html2stan observed on level-0 text, or raising for the canary only."""
+    if w.get("kind") != "mathtext" or w.get("invariant") not in ("SkeletonEqual", "SinkLevelOne", "SinkLevelOne(TLC)", "CanaryAppears"):
+        return False
+    if any(e[0] == "ParseXml" and (e[1] == 0 or e[2] == -3) for e in w.get("events", [])):
+        return True
+    # the canary was rewritten by the formula parser (no level): the new elements sit in the text-mode span
+    where = w.get("where") or {}
+    return w.get("invariant") == "SkeletonEqual" and any("{text}" in x or "{mbox}" in x for x in where.get("with_canary", []))
+
+
 MODELLED_LINESEP = ("cr", "fs", "gs", "rs", "nel", "ls", "ps")     # vt / ff additionally make html2stan raise
 
 
@@ -860,12 +917,15 @@ def jobs_for(scratch: Path, kind: str, variant: str, payload: str) -> Tuple[Dict
 def run(ctx: Ctx) -> int:
     rng = random.Random(ctx.seed)
     # ---- spec -> code: every (kind, sink) pair of Escape.tla
-    def enumerate_model(count: bool = True):
-        rr = ctx.tlc("Escape", CFG_ENUM, workers=4, check=True, coverage=ctx.quick and count, timeout=600, count=count)
+    ctx.register_matcher(KF_MOVED, kf_moved_docformat)
+    ctx.register_matcher(KF_MATH, kf_math_text_raw)
+
+    def enumerate_model(moved: str, count: bool = True):
+        rr = ctx.tlc("Escape", CFG_ENUM.format(moved=moved, raw="NeverParsedRawExceptKnown", sink="SinkLevelOneExceptKnown"), workers=4, check=True, coverage=ctx.quick and count, timeout=600, count=count)
         if not rr.printed:
             raise MachineryError("Escape.tla printed no (kind, sink) pair")
         if rr.violated:
-            raise MachineryError(f"Escape.tla violates its own invariants: {rr.violated}")
+            raise MachineryError(f"Escape.tla violates its invariants outside the known findings: {rr.violated}")
         mdl: Dict[Tuple[str, str], Dict[str, Any]] = {}
         for pr in rr.printed:
             m = mdl.setdefault((pr["kind"], pr["cls"]), {"sinks": set(), "steps": set(), "pairs": []})
@@ -875,14 +935,15 @@ def run(ctx: Ctx) -> int:
             m["pairs"].append(pr)
         return rr, mdl
 
-    r, model = enumerate_model()
+    moved = "new_module"           # the code as it is; the check uses the transcription the observations conform to
+    r, model = enumerate_model(moved)
     pairs = r.printed
     ctx.exhaustive = True
     unknown = sorted({k for k, _ in model} - set(KINDS))
     if unknown:
         raise MachineryError(f"Escape.tla enumerates source kinds the harness cannot plant: {unknown}")
     kinds = [k for k in KINDS if (k, "plain") in model]
-    plan: List[Tuple[str, str, str, bool]] = [(k, v, p, True) for k in kinds for v, p in VARIANTS.items()]
+    plan: List[Tuple[str, str, str, bool]] = [(k, v, p, k != "mathtext" or v in MODELLED_MATHTEXT) for k in kinds for v, p in VARIANTS.items()]
     plan += [(k, v, p, False) for k in kinds for v, p in UNMODELLED_VARIANTS.items()]
     if "deprecated" in kinds:
         plan += [("deprecated", f"linesep-{n}", linesep_payload(c), n in MODELLED_LINESEP) for n, c in LINE_SEPARATORS.items()]
@@ -965,7 +1026,15 @@ def run(ctx: Ctx) -> int:
         return out
 
     twin = conform(model)
-    ctx.extra["design_level_invariants_violated"] = list(r.violated)
+    if any(d and any(d.values()) and o["kind"] == "reexport.plaintext" for d, o in zip(twin, observed_records) if o):
+        r_alt, model_alt = enumerate_model("defining_module", count=False)
+        twin_alt = conform(model_alt)
+        if sum(1 for d in twin_alt if d and any(d.values())) < sum(1 for d in twin if d and any(d.values())):
+            moved, model, twin, pairs = "defining_module", model_alt, twin_alt, r_alt.printed
+    ctx.extra["model_variant_followed_by_code"] = {"MovedDocformat": moved}
+    strict = ctx.tlc("Escape", CFG_ENUM.format(moved=moved, raw="NeverParsedRaw", sink="SinkLevelOne"), workers=1, timeout=600,
+                     count=False, extra=["-continue"])
+    ctx.extra["design_level_invariants_violated"] = sorted(set(strict.violated))
     for d, o in zip(twin, observed_records):
         if o is None:
             continue
@@ -989,7 +1058,7 @@ def run(ctx: Ctx) -> int:
     twin = [twin[i] for i in keep]
     f = ctx.scratch / "observed.json"
     f.write_text(json.dumps(observed_records))
-    r2 = ctx.tlc("Escape", CFG_FILE, workers=1, env={"C10_OBSERVED": str(f)}, check=True, timeout=600)
+    r2 = ctx.tlc("Escape", CFG_FILE.format(moved=moved), workers=1, env={"C10_OBSERVED": str(f)}, check=True, timeout=600)
     got = {x["n"]: x for x in r2.printed}
     if len(got) != len(observed_records):
         raise MachineryError(f"TLC judged {len(got)} of {len(observed_records)} observed flows")
@@ -1021,7 +1090,7 @@ def run(ctx: Ctx) -> int:
     broken[0]["sinks"][0][3] = 2
     broken[0]["events"].append(["ParseXml", 0, 0])
     f.write_text(json.dumps(broken))
-    r3 = ctx.tlc("Escape", CFG_FILE, workers=1, env={"C10_OBSERVED": str(f)}, check=True, count=False)
+    r3 = ctx.tlc("Escape", CFG_FILE.format(moved=moved), workers=1, env={"C10_OBSERVED": str(f)}, check=True, count=False)
     nc["tlc_rejects_corrupted_observation"] = (not r3.printed[0]["sinkLevelOne"]) and (not r3.printed[0]["neverParsedRaw"]) \
         and bool(r3.printed[0]["stepsNotInModel"])
     # a page in which the canary is written raw must be caught by the crawler (skeleton / well-formedness)
